@@ -234,6 +234,11 @@ func (s *Sched) State() (parkedAt map[string]string, done []string) {
 
 // WaitUntil blocks until pred holds (evaluated under the lock on a snapshot) or the timeout expires.
 func (s *Sched) WaitUntil(timeout time.Duration, pred func(parked map[string]string, done map[string]bool) bool) bool {
+	return s.WaitCond(timeout, func(p map[string]string, d map[string]bool, _ int) bool { return pred(p, d) })
+}
+
+// WaitCond is WaitUntil with the number of recorded (undrained) events as a third input.
+func (s *Sched) WaitCond(timeout time.Duration, pred func(parked map[string]string, done map[string]bool, nev int) bool) bool {
 	deadline := time.Now().Add(timeout)
 	timer := time.AfterFunc(timeout, func() { s.mu.Lock(); s.cond.Broadcast(); s.mu.Unlock() })
 	defer timer.Stop()
@@ -244,7 +249,7 @@ func (s *Sched) WaitUntil(timeout time.Duration, pred func(parked map[string]str
 		for k, p := range s.parked {
 			pk[k] = p.gate
 		}
-		if pred(pk, s.done) {
+		if pred(pk, s.done, len(s.evs)) {
 			return true
 		}
 		if !time.Now().Before(deadline) {
